@@ -14,6 +14,23 @@ fn seed() -> u64 {
     std::env::var("VERIF_SEED").ok().and_then(|s| s.trim().parse::<u64>().ok()).unwrap_or(20260927)
 }
 
+/// Memory guard: a runaway case (e.g. an exploding regex compilation) must
+/// end as "inconclusive", never take the machine down or look like a verdict.
+fn memory_guard(limit_kb: u64, property: String) {
+    std::thread::spawn(move || loop {
+        std::thread::sleep(std::time::Duration::from_millis(500));
+        if let Ok(s) = std::fs::read_to_string("/proc/self/status") {
+            if let Some(l) = s.lines().find(|l| l.starts_with("VmRSS:")) {
+                let kb: u64 = l.split_whitespace().nth(1).and_then(|x| x.parse().ok()).unwrap_or(0);
+                if kb > limit_kb {
+                    println!("INCONCLUSIVE property={property} memory guard: resident set {kb} kB exceeds {limit_kb} kB");
+                    std::process::exit(2);
+                }
+            }
+        }
+    });
+}
+
 fn watchdog(secs: u64, property: String) {
     std::thread::spawn(move || {
         std::thread::sleep(std::time::Duration::from_secs(secs));
@@ -83,6 +100,7 @@ fn main() {
                 std::process::exit(2);
             };
             watchdog(tier.pick(1500, 6 * 3600), id.clone());
+            memory_guard(20 * 1024 * 1024, id.clone());
             let pc = PropCtx::new(prop.id, prop.level, tier, seed());
             replay_committed(&pc, prop);
             if !pc.has_failure() {
